@@ -133,6 +133,26 @@ fn recursion_programs() -> Vec<(String, String)> {
     v.push(("non-tail unbounded".into(), "fn f(n) { 1 + f(n + 1) } f(0);".into()));
     v.push(("nested closure unbounded".into(), "fn f(n) { let g = fn() { f(n + 1) }; g() } f(0);".into()));
     v.push(("deep array of pending operands".into(), "fn f(n) { [n, f(n + 1)] } f(0);".into()));
+    // unbounded recursion x what the callee does first (incl. reading a local slot nobody has written yet) x how many
+    // operands the callers keep pending (decides at which stack offset the frame array / operand stack runs out)
+    for first in ["", "let a = a;", "let a = 1; a;", "p;", "[1, 2, 3];", "len([]);", "let a = a; let b = b; b;", "let a = p; a = a + 1;"] {
+        for pend in 0..4usize {
+            for nontail in [false, true] {
+                let uses_p = first.contains('p');
+                let call = if uses_p { "f(p)" } else { "f()" };
+                let body_call = if nontail { format!("1 + {}", call) } else { call.to_string() };
+                let start = format!("{}{}", "1 + ".repeat(pend), if uses_p { "f(0)" } else { "f()" });
+                v.push((
+                    format!("unbounded, callee starts with `{}`, {} pending, nontail={}", first, pend, nontail),
+                    format!("fn f({}) {{ {} {} }} {};", if uses_p { "p" } else { "" }, first, body_call, start),
+                ));
+                v.push((
+                    format!("unbounded through a second function, callee starts with `{}`, {} pending, nontail={}", first, pend, nontail),
+                    format!("fn f({}) {{ {} {} }} fn g() {{ {} }} g();", if uses_p { "p" } else { "" }, first, body_call, start),
+                ));
+            }
+        }
+    }
     for d in [1000i64, 2000, 4000, 4094, 4095] {
         v.push((format!("bounded non-tail depth {}", d), format!("fn f(n) {{ if n == 0 {{ 0 }} else {{ 1 + f(n - 1) }} }} f({});", d)));
     }
@@ -299,6 +319,36 @@ const LONG_STREAM: &[&str] = &[
     "let n = 0; @ true { n = n + 1; } @ end { println(\"{}\", n); }",
 ];
 
+/// deeply nested and self-containing containers used WITHOUT printing them, through the binary (the in-process
+/// workers run on a 1 GiB stack and would not show a native stack overflow): (name, source, may hit the known finding)
+fn container_programs() -> Vec<(String, String, bool)> {
+    let mut v = vec![];
+    for d in [10usize, 1000, 5000, 50000, 200000] {
+        let build = format!("let a = []; let b = []; let i = 0; while i < {} {{ a = [a]; b = [b]; i = i + 1; }}", d);
+        let deep = d > 5000;
+        v.push((format!("nesting depth {} dropped at exit", d), format!("{} puts(i);", build), deep));
+        v.push((format!("nesting depth {} compared", d), format!("{} puts(a == b);", build), deep));
+        v.push((format!("nesting depth {} used as a map key", d), format!("{} let m = map {{}}; m[a] = 1; puts(len(m));", build), deep));
+        v.push((format!("nesting depth {} rendered", d), format!("{} puts(len(str(a)));", build), deep));
+    }
+    // containers that contain themselves, never printed
+    let selfy = "let a = [1]; push(a, a); let b = [1]; push(b, b); let m = map {}; m[\"self\"] = m; let m2 = map {};";
+    for (n, use_, cyclic_walk) in [
+        ("length and element access", "puts(len(a), len(a[1]), len(m));", false),
+        ("dropped at exit", "puts(1);", false),
+        ("compared with itself", "puts(a == a);", false),
+        ("compared with another self-containing array", "puts(a == b);", true),
+        ("used as a map key", "m2[a] = 1; puts(len(m2));", true),
+        ("looked up as a map key", "puts(contains(m2, a));", true),
+        ("map containing itself as part of a key", "m2[[m2]] = 1; m2[[m]] = 2; puts(len(m2));", false),
+        ("insert with the map itself as key", "insert(m2, m2, 1); puts(len(m2));", false),
+        ("sorted", "sort([a, b]);", true),
+    ] {
+        v.push((format!("self-containing: {}", n), format!("{} {}", selfy, use_), cyclic_walk));
+    }
+    v
+}
+
 pub struct P08 {
     nb: u64,
     n_kind: u64,
@@ -307,6 +357,7 @@ pub struct P08 {
     rec: Vec<(String, String)>,
     filt: Vec<(String, String)>,
     e2e: bool,
+    cont: Vec<(String, String, bool)>,
     /// the complete operator x boundary-operand table of C09, judged here for crashes only
     ops: crate::p09::P09,
 }
@@ -316,10 +367,10 @@ impl P08 {
         let per = 1 + NKINDS + NKINDS * NKINDS + NKINDS * NKINDS * NKINDS;
         let bvals = boundary_values();
         let nv = bvals.len() as u64;
-        P08 { nb, n_kind: nb * per, n_bound: nb * (nv + nv * nv), bvals, rec: recursion_programs(), filt: filter_programs(), e2e: std::path::Path::new(&bin_path()).exists(), ops: crate::p09::P09::new(tier) }
+        P08 { nb, n_kind: nb * per, n_bound: nb * (nv + nv * nv), bvals, rec: recursion_programs(), filt: filter_programs(), e2e: std::path::Path::new(&bin_path()).exists(), cont: container_programs(), ops: crate::p09::P09::new(tier) }
     }
     fn n_e2e(&self) -> u64 {
-        if self.e2e { self.filt.len() as u64 + 3 + LONG_STREAM.len() as u64 } else { 0 }
+        if self.e2e { self.filt.len() as u64 + 3 + LONG_STREAM.len() as u64 + self.cont.len() as u64 } else { 0 }
     }
 }
 
@@ -373,6 +424,9 @@ impl Property for P08 {
                 let k = i - self.rec.len() - self.filt.len();
                 if k < self.filt.len() {
                     json!({"filter program (binary)": self.filt[k].0, "source": self.filt[k].1})
+                } else if k >= self.filt.len() + 3 + LONG_STREAM.len() {
+                    let c = &self.cont[k - self.filt.len() - 3 - LONG_STREAM.len()];
+                    json!({"containers (binary)": c.0, "source": c.1})
                 } else if k < self.filt.len() + 3 {
                     json!({"exit status (binary)": k - self.filt.len()})
                 } else {
@@ -450,6 +504,26 @@ impl Property for P08 {
                 CaseOut::pass("filter(binary) ok")
             };
         }
+        if k >= self.filt.len() + 3 + LONG_STREAM.len() {
+            let (name, src, walks) = &self.cont[k - self.filt.len() - 3 - LONG_STREAM.len()];
+            let o = run_bin(&["-c", src], b"", &[], 60);
+            if o.crashed() {
+                let err = o.err_s();
+                let native = matches!(o.signal, Some(6) | Some(11)) && err.contains("overflowed its stack");
+                return CaseOut {
+                    class: "containers(binary) native-stack-overflow".into(),
+                    verdict: if native && *walks {
+                        known_or_violation("C08", "container-recursion-on-native-stack", format!("{}: native stack overflow", name))
+                    } else {
+                        Verdict::Violation(format!("{} (`{}`): status {:?} signal {:?} timed_out {} stderr {}", name, one_line(src, 160), o.status, o.signal, o.timed_out, one_line(&err, 200)))
+                    },
+                    states: 1,
+                    transitions: 1,
+                    traces: 1,
+                };
+            }
+            return CaseOut::pass("containers(binary) ok");
+        }
         if k >= self.filt.len() + 3 {
             let src = LONG_STREAM[k - self.filt.len() - 3];
             let path = dir.join("long.p2");
@@ -476,7 +550,7 @@ impl Property for P08 {
         }
     }
     fn rule(&self) -> String {
-        format!("every one of the {} builtins x arity 0..3 x every tuple of {} argument kinds {:?}; every builtin x every single and every pair of {} boundary values (integer limits, shift/precision boundaries, surrogate/astral code points, special floats, boundary strings, invalid UTF-8 byte arrays, mixed arrays); {} recursion/frame/locals programs (direct recursion of arity 1-4 with 0-3 locals to depths around 4096 and unbounded, mutual/closure/non-tail recursion, functions with up to 256 locals called at stack heights around the limit, literals exhausting the operand stack); {} filter programs (break/continue/return at every position of actions and end actions, every truthiness representative as pattern with and without an action, filters inside functions/blocks/loops/filters, failing patterns and actions) run on a two-packet stream through an in-process copy of main.rs's filter loop and through the binary; exit statuses through the binary. Oracle: never a panic, abort, signal or hang. the complete operator x boundary-operand table of C09 is re-run with the crash-only oracle. (The generated program spaces of C02, C04, C05 also report crashes.)", self.nb, NKINDS, KIND_NAMES, self.bvals.len(), self.rec.len(), self.filt.len())
+        format!("every one of the {} builtins x arity 0..3 x every tuple of {} argument kinds {:?}; every builtin x every single and every pair of {} boundary values (integer limits, shift/precision boundaries, surrogate/astral code points, special floats, boundary strings, invalid UTF-8 byte arrays, mixed arrays); {} recursion/frame/locals programs (direct recursion of arity 1-4 with 0-3 locals to depths around 4096 and unbounded, mutual/closure/non-tail recursion, functions with up to 256 locals called at stack heights around the limit, literals exhausting the operand stack); {} filter programs (break/continue/return at every position of actions and end actions, every truthiness representative as pattern with and without an action, filters inside functions/blocks/loops/filters, failing patterns and actions) run on a two-packet stream through an in-process copy of main.rs's filter loop and through the binary; exit statuses through the binary; containers nested 10 .. 200000 deep and containers that contain themselves, dropped / compared / hashed / rendered (never printed when self-containing) through the binary. Oracle: never a panic, abort, signal or hang. the complete operator x boundary-operand table of C09 is re-run with the crash-only oracle. (The generated program spaces of C02, C04, C05 also report crashes.)", self.nb, NKINDS, KIND_NAMES, self.bvals.len(), self.rec.len(), self.filt.len())
     }
     fn bounds(&self) -> Value {
         json!({"builtin_kind_calls": self.n_kind, "builtin_boundary_calls": self.n_bound, "recursion_programs": self.rec.len(), "filter_programs": self.filt.len(), "binary_runs": self.n_e2e()})
@@ -484,6 +558,6 @@ impl Property for P08 {
     fn assumptions(&self) -> Vec<String> {
         vec!["exit(n) and sleep(n != 0) are not called in-process (they end/block the process by design); exit is checked through the binary".into(),
              "non-termination is decided up to a 30 s per-case horizon".into(),
-             "requests for more memory than the machine has and self-containing containers are excluded by the property and not generated".into()]
+             "requests for more memory than the machine has are excluded by the property and not generated; containers that contain themselves are generated but never printed".into()]
     }
 }
